@@ -17,6 +17,7 @@ import (
 	v2 "github.com/hydraide/hydraide/app/core/hydra/swamp/chronicler/v2"
 	"github.com/hydraide/hydraide/app/core/hydra/swamp/treasure"
 	"github.com/hydraide/hydraide/app/core/hydra/swamp/treasure/guard"
+	"github.com/hydraide/hydraide/app/verifhook"
 )
 
 const (
@@ -407,10 +408,17 @@ func (c *chroniclerV2) Write(treasures []treasure.Treasure) {
 
 	// Ensure we have a writer (lazy initialization)
 	if err := c.ensureWriter(); err != nil {
+		if verifhook.Enabled {
+			verifhook.Trace("chron.open", "ok", false)
+		}
 		slog.Error("cannot initialize swamp file writer",
 			"path", c.hydFilePath,
 			"error", err)
 		return
+	}
+
+	if verifhook.Enabled {
+		verifhook.Trace("chron.open", "ok", true)
 	}
 
 	// Track file pointer events for callback
@@ -463,6 +471,9 @@ func (c *chroniclerV2) Write(treasures []treasure.Treasure) {
 
 		// Write the entry to persistent writer
 		if err := c.writer.WriteEntry(entry); err != nil {
+			if verifhook.Enabled {
+				verifhook.Trace("chron.put", "key", key, "ok", false)
+			}
 			slog.Error("cannot write entry to swamp file",
 				"key", key,
 				"error", err)
@@ -470,6 +481,9 @@ func (c *chroniclerV2) Write(treasures []treasure.Treasure) {
 			continue
 		}
 		writtenCount++
+		if verifhook.Enabled {
+			verifhook.Trace("chron.put", "key", key, "ok", true)
+		}
 
 		// Track for file pointer callback
 		if !c.dontSendFilePointer {
